@@ -531,30 +531,65 @@ func attrValue(c *C11Case) (string, string) { //nolint:cyclop,gocyclo
 
 // decodeAny decodes attribute sp from m with the library; returns a printable value and a
 // re-encoder for the drift check.
+// decodeAny decodes into a fresh receiver; decodeDirty into one that already holds something
+// (a receiver reused across messages): dirty 1 = a longer earlier value, 2 = an empty value with
+// spare capacity, 3 = a shorter earlier value with spare capacity.
 func decodeAny(sp *attrSpec, m *stun.Message) (val string, re stun.Setter, err error) {
+	return decodeDirty(sp, m, 0)
+}
+
+func dirtyBytes(dirty int) []byte {
+	switch dirty {
+	case 1:
+		return bytes.Repeat([]byte{0xEE}, 16)
+	case 2:
+		return make([]byte, 0, 8)
+	case 3:
+		return append(make([]byte, 0, 32), 0xDD, 0xDD, 0xDD)
+	}
+
+	return nil
+}
+
+func decodeDirty(sp *attrSpec, m *stun.Message, dirty int) (val string, re stun.Setter, err error) {
 	switch sp.name {
 	case "CHANNEL-NUMBER":
 		var v proto.ChannelNumber
+		if dirty > 0 {
+			v = 0x7ABC
+		}
 		err = v.GetFrom(m)
 
 		return fmt.Sprint(uint16(v)), v, err
 	case "LIFETIME":
 		var v proto.Lifetime
+		if dirty > 0 {
+			v.Duration = 777 * time.Second
+		}
 		err = v.GetFrom(m)
 
 		return v.Duration.String(), v, err
 	case "XOR-PEER-ADDRESS":
 		var v proto.PeerAddress
+		if dirty > 0 {
+			v.IP, v.Port = net.IP(dirtyBytes(dirty)), 999
+		}
 		err = v.GetFrom(m)
 
 		return fmt.Sprintf("%v|%d", []byte(v.IP), v.Port), v, err
 	case "XOR-RELAYED-ADDRESS":
 		var v proto.RelayedAddress
+		if dirty > 0 {
+			v.IP, v.Port = net.IP(dirtyBytes(dirty)), 999
+		}
 		err = v.GetFrom(m)
 
 		return fmt.Sprintf("%v|%d", []byte(v.IP), v.Port), v, err
 	case "DATA":
 		var v proto.Data
+		if dirty > 0 {
+			v = proto.Data(dirtyBytes(dirty))
+		}
 		err = v.GetFrom(m)
 
 		return hex.EncodeToString(v), v, err
@@ -575,11 +610,17 @@ func decodeAny(sp *attrSpec, m *stun.Message) (val string, re stun.Setter, err e
 		return fmt.Sprint(v.ReservePort), v, err
 	case "RESERVATION-TOKEN":
 		var v proto.ReservationToken
+		if dirty > 0 {
+			v = proto.ReservationToken(dirtyBytes(dirty))
+		}
 		err = v.GetFrom(m)
 
 		return hex.EncodeToString(v), v, err
 	case "CONNECTION-ID":
 		var v proto.ConnectionID
+		if dirty > 0 {
+			v = 0xDEADBEEF
+		}
 		err = v.GetFrom(m)
 
 		return fmt.Sprint(uint32(v)), v, err
@@ -611,6 +652,12 @@ func attrRaw(c *C11Case) (string, string) {
 		return "attr-envelope", fmt.Sprintf("%s: well-formed envelope with a %d-byte value rejected: %v", c.Attr, len(val), err)
 	}
 	got, re, derr := decodeAny(sp, m)
+	for dirty := 1; dirty <= 3; dirty++ {
+		// the verdict and the value must not depend on what the receiver held before
+		if g2, _, e2 := decodeDirty(sp, m, dirty); (e2 == nil) != (derr == nil) || (derr == nil && g2 != got) {
+			return "attr-decode-depends-on-receiver", fmt.Sprintf("%s: value %x decodes as %s (err %v) into a fresh receiver but as %s (err %v) into a reused one (variant %d)", c.Attr, val, got, derr, g2, e2, dirty)
+		}
+	}
 	wrongSize := false
 	switch sp.size {
 	case -1:
